@@ -1599,7 +1599,8 @@ std::ostream& expression_t::print(std::ostream& os, bool old) const
             get(1).print(os << "{", old) << "} -> {";
             get(2).print(os, old) << "}";
         }
-        get(0).print(os << "(\"", old) << "\")";
+        // the file name is read back with std::quoted: write it the same way (as saveStrategy does)
+        os << '(' << std::quoted(get(0).get_string_value()) << ')';
         break;
 
     case PO_CONTROL:
